@@ -325,7 +325,8 @@ def check_failure(W, rec, tname, args, exc, einfo, ex, owners):
             W.bad('C05.d', 'timelimit-without-limit:%s' % rec.kind, 'job %r' % uid)
         return
     if rec.opts.get('bad_arg'):
-        if tname != 'TypeError' or not args or 'cannot pickle' not in str(args[0]):
+        kinds = [c.__name__ for c in T.Unpicklable.KINDS]
+        if tname not in kinds or not args or 'cannot pickle' not in str(args[0]):
             W.bad('C01.d', 'send-failure-wrong-error', 'job %r: %s%r' % (uid, tname, args))
         return
     if tname == 'MaybeEncodingError':
